@@ -157,6 +157,13 @@ var loxWords = []string{"@left(0)", "@right(0)", "@left(99999999999999999999)", 
 	"@mode", "@frag", "@macro", "@external", "@push_mode(", "@pop_mode", "@emit(", "@discard", "'\\x", "'\\u12'", "'\\U00110000'", "'\\UFFFFFFFF'", "[z-a]", "[]", "~[]", "''", "*?", "+?", "*!",
 	"[a-\\U0010FFFF]", "~[\\x00-\\U0010FFFF]", "'\\xZZ'", "\\", "(", ")", "|", "=", ". - .", "[a] - [a]", "EOF", "ERROR", "A__B", "_x", "x__y"}
 
+var reLitOrClass = regexp.MustCompile(`'(?:\\.|[^'\\\n])*'|\[(?:\\.|[^\]\\\n])*\]`)
+
+var advLiterals = []string{`'\UFFFFFFFF'`, `'\U80000000'`, `'\U7FFFFFFF'`, `'\U00110000'`, `'\x00'`, `'\u0000'`, `'\uD800'`, `'\xFF\xFE'`, `'\''`, `'\\'`, `''`, `'\n\r\t'`,
+	`'aaaaaaaaaaaaaaaaaaaaaaaaaaaaaaaaaaaaaaaaaaaaaaaaaaaaaaaaaaaaaaaaaaaaaaaaaaaaaaaa'`, `'\UFFFFFFFF\U80000000'`}
+
+var advClasses = []string{`[\UFFFFFFFF]`, `[\U80000000-\UFFFFFFFF]`, `[\x00-\U0010FFFF]`, `[z-a]`, `[\uD800-\uDFFF]`, `[a-a]`, `[\--\-]`, `[\\-\\]`, `[\U00110000]`, `[a-zA-Z0-9_\x00-\x1F\u0080-\uFFFF]`}
+
 var reTokenish = regexp.MustCompile(`[A-Za-z_][A-Za-z0-9_]*|[0-9]+|'(?:\\.|[^'\\\n])*'|\[(?:\\.|[^\]\\\n])*\]|@[a-z_]+|\S`)
 
 func mutateBytes(r *core.Rand, data []byte, other []byte) ([]byte, string) {
@@ -222,7 +229,29 @@ func mutateBytes(r *core.Rand, data []byte, other []byte) ([]byte, string) {
 			return d, fmt.Sprintf("caseflip@%d", pos)
 		}
 		a := locs[r.Intn(len(locs))]
-		switch r.Intn(8) {
+		switch r.Intn(10) {
+		case 8: // replace a literal or a class by an adversarial one
+			lits := reLitOrClass.FindAllIndex(d, -1)
+			if len(lits) > 0 {
+				n := lits[r.Intn(len(lits))]
+				w := advLiterals[r.Intn(len(advLiterals))]
+				if d[n[0]] == '[' {
+					w = advClasses[r.Intn(len(advClasses))]
+				}
+				out := append(append(append([]byte{}, d[:n[0]]...), w...), d[n[1]:]...)
+				return out, fmt.Sprintf("advliteral@%d=%s", n[0], w)
+			}
+			fallthrough
+		case 9: // make a token very long
+			n := 20 + r.Intn(200)
+			mid := d[a[0]:a[1]]
+			if len(mid) >= 2 && (mid[0] == '\'' || mid[0] == '[') {
+				inner := bytes.Repeat([]byte{"aZ0_ "[r.Intn(5)]}, n)
+				out := append(append(append([]byte{}, d[:a[0]+1]...), inner...), d[a[0]+1:]...)
+				return out, fmt.Sprintf("longtoken@%d+%d", a[0], n)
+			}
+			out := append(append(append([]byte{}, d[:a[1]]...), bytes.Repeat(mid[len(mid)-1:], n)...), d[a[1]:]...)
+			return out, fmt.Sprintf("longtoken@%d+%d", a[0], n)
 		case 6: // tweak a number: 0, negative-looking, huge
 			nums := reDigits.FindAllIndex(d, -1)
 			if len(nums) > 0 {
@@ -314,6 +343,11 @@ func (st *c12State) execOne(run *c12Run) (c12Outcome, error) {
 			return c12Outcome{}, Infra("%v", err)
 		}
 		switch run.Env {
+		case "symlinked-dir":
+			// the project directory is reached through a symbolic link
+			real := filepath.Join(base, "real_dir")
+			os.Rename(dir, real)
+			os.Symlink(real, dir)
 		case "lox-is-dir":
 			os.MkdirAll(filepath.Join(dir, "zz_dir.lox"), 0o755)
 		case "gofile-is-dir":
@@ -454,7 +488,7 @@ func CheckC12(tier string, seed uint64, rep *core.Reporter) (*core.Evidence, err
 				gv = specgen.GoVariant{FileName: []string{"parser.go", "ast.go"}[r.Intn(2)]}
 				files = spec.ProjectFiles(gv)
 				run := &c12Run{ID: fmt.Sprintf("%d-base%d", wi, attempt), Files: files, Kind: "baseline",
-					Op: Op{Kind: "Gen", Binary: "sim", Map: randMap(r), Cwd: cwdModes[r.Intn(5)], Report: r.Intn(3) == 0}}
+					Op: Op{Kind: "Gen", Binary: "sim", Map: randMap(r), Cwd: cwdModes[r.Intn(len(cwdModes))], Report: r.Intn(3) == 0}}
 				out, err := st.execOne(run)
 				if err != nil {
 					setErr(err)
@@ -526,7 +560,7 @@ func CheckC12(tier string, seed uint64, rep *core.Reporter) (*core.Evidence, err
 					bin = "plain"
 				}
 				doRun(&c12Run{ID: fmt.Sprintf("%d-b%d", wi, bi), Files: fs, Kind: "stored-byte", Faults: notes,
-					Op: Op{Kind: "Gen", Binary: bin, Map: randMap(r), Cwd: cwdModes[r.Intn(5)], Report: r.Intn(4) == 0}})
+					Op: Op{Kind: "Gen", Binary: bin, Map: randMap(r), Cwd: cwdModes[r.Intn(len(cwdModes))], Report: r.Intn(4) == 0}})
 			}
 			// I/O faults inside the run
 			for ii := 0; ii < nIO; ii++ {
@@ -536,7 +570,7 @@ func CheckC12(tier string, seed uint64, rep *core.Reporter) (*core.Evidence, err
 					flt.Call = ii + 1 // walk every call once, then random
 				}
 				doRun(&c12Run{ID: fmt.Sprintf("%d-i%d", wi, ii), Files: clone(), Kind: "io-fault",
-					Op: Op{Kind: "FailGen", Binary: "sim", Map: randMap(r), Cwd: cwdModes[r.Intn(5)], Report: r.Intn(4) == 0, Fault: flt}})
+					Op: Op{Kind: "FailGen", Binary: "sim", Map: randMap(r), Cwd: cwdModes[r.Intn(len(cwdModes))], Report: r.Intn(4) == 0, Fault: flt}})
 			}
 			doRun(&c12Run{ID: fmt.Sprintf("%d-iL", wi), Files: clone(), Kind: "io-fault",
 				Op: Op{Kind: "FailGen", Binary: "sim", Map: randMap(r), Cwd: "dot", Fault: &Fault{Fn: "packages.Load", Kind: "error"}}})
@@ -558,7 +592,7 @@ func CheckC12(tier string, seed uint64, rep *core.Reporter) (*core.Evidence, err
 					bin = "plain"
 				}
 				doRun(&c12Run{ID: fmt.Sprintf("%d-g%s", wi, defects[di]), Files: spec.ProjectFiles(g2), Kind: "go-package", Faults: []string{defects[di]},
-					Op: Op{Kind: "Gen", Binary: bin, Map: randMap(r), Cwd: cwdModes[r.Intn(5)]}})
+					Op: Op{Kind: "Gen", Binary: bin, Map: randMap(r), Cwd: cwdModes[r.Intn(len(cwdModes))]}})
 			}
 			// regeneration over the output of an earlier run: the grammar shrank
 			// (or was replaced by a smaller one), so every generated file gets shorter
@@ -569,7 +603,7 @@ func CheckC12(tier string, seed uint64, rep *core.Reporter) (*core.Evidence, err
 					small.Pkg = spec.Pkg
 				}
 				doRun(&c12Run{ID: fmt.Sprintf("%d-r%d", wi, k), Files: small.ProjectFiles(gv), Pre: clone(), Kind: "regenerate-smaller",
-					Op: Op{Kind: "Gen", Binary: []string{"sim", "plain"}[r.Intn(2)], Map: randMap(r), Cwd: cwdModes[r.Intn(5)]}})
+					Op: Op{Kind: "Gen", Binary: []string{"sim", "plain"}[r.Intn(2)], Map: randMap(r), Cwd: cwdModes[r.Intn(len(cwdModes))]}})
 			}
 			// the same text claimed by token rules of two different files
 			{
@@ -581,19 +615,19 @@ func CheckC12(tier string, seed uint64, rep *core.Reporter) (*core.Evidence, err
 				dupB := &specgen.LexRule{Kind: specgen.RTok, Name: "DUPB", Expr: &specgen.LexExpr{Op: specgen.LLit, Lit: lit}}
 				def.Rules = append(append([]*specgen.LexRule{dupA}, def.Rules...), dupB)
 				doRun(&c12Run{ID: fmt.Sprintf("%d-x", wi), Files: cs.ProjectFiles(gv), Kind: "cross-file-lexer-conflict",
-					Op: Op{Kind: "Gen", Binary: "sim", Map: randMap(r), Cwd: cwdModes[r.Intn(5)]}})
+					Op: Op{Kind: "Gen", Binary: "sim", Map: randMap(r), Cwd: cwdModes[r.Intn(len(cwdModes))]}})
 			}
 			// grammars that are not LALR(1): must be diagnosed, not crash
 			for k := 0; k < 3; k++ {
 				cs := specgen.GenerateConflicting(r.Uint64())
 				doRun(&c12Run{ID: fmt.Sprintf("%d-c%d", wi, k), Files: cs.ProjectFiles(gv), Kind: "conflicting-grammar",
-					Op: Op{Kind: "Gen", Binary: "sim", Map: randMap(r), Cwd: cwdModes[r.Intn(5)], Report: r.Intn(2) == 0}})
+					Op: Op{Kind: "Gen", Binary: "sim", Map: randMap(r), Cwd: cwdModes[r.Intn(len(cwdModes))], Report: r.Intn(2) == 0}})
 			}
 			// environment
-			envs := []string{"dir-missing", "dir-is-file", "lox-is-dir", "gofile-is-dir", "genfile-is-dir", "outside-module", "outside-module"}
+			envs := []string{"dir-missing", "dir-is-file", "lox-is-dir", "gofile-is-dir", "genfile-is-dir", "outside-module", "outside-module", "symlinked-dir", "symlinked-dir"}
 			for _, ei := range permN(r, len(envs))[:2] {
 				doRun(&c12Run{ID: fmt.Sprintf("%d-e%s", wi, envs[ei]), Files: clone(), Kind: "env", Env: envs[ei],
-					Op: Op{Kind: "Gen", Binary: []string{"sim", "plain"}[r.Intn(2)], Map: randMap(r), Cwd: cwdModes[r.Intn(5)]}})
+					Op: Op{Kind: "Gen", Binary: []string{"sim", "plain"}[r.Intn(2)], Map: randMap(r), Cwd: cwdModes[r.Intn(len(cwdModes))]}})
 			}
 		}(wi)
 	}
